@@ -370,7 +370,7 @@ fn check_type<T: Jetty>(tname: &str, ctx: &Ctx, shard: usize, nshards: usize, ti
 fn main() {
     let ctx = Ctx::from_args("C09");
     ndv_checks::warm_up_f32();
-    let acc = ctx.parallel(|shard, nshards| {
+    let mut acc = ctx.parallel(|shard, nshards| {
         let mut acc = Acc::new();
         let mut t = 0u64;
         macro_rules! go {
@@ -385,6 +385,8 @@ fn main() {
         let _ = t;
         acc
     });
+    // results must not depend on what was called before, on which thread, or at the same time
+    acc.merge(ndv_checks::history_independence(ndv_checks::Family::Powers, &ctx));
     let classes: std::collections::BTreeSet<String> = acc.classes.keys().filter_map(|k| { let mut it = k.split('|'); let a = it.next()?; let _t = it.next()?; let c = it.next()?; Some(format!("{}:{}", a, c)) }).collect();
     let mut extra = serde_json::Map::new();
     extra.insert("exponent_classes_observed".into(), json!(classes));
